@@ -45,7 +45,7 @@ func respMain(e *Env, id string, client bool) (*res.Result, error) {
 		bf := rapid.SampledFrom(forms).Draw(t, "baseform")
 		d := c.ResponsesDoc()
 		d.Servers = bf.Servers
-		return PkgSpec{Doc: d, Cfg: inproc.Config{DoNotEdit: true, Client: client, BasePath: bf.Flag}, Meta: map[string]any{"tags": tagList(c.Tags), "baseform": bf.Name}}
+		return PkgSpec{Doc: d, Cfg: inproc.Config{DoNotEdit: true, Client: client, BasePath: bf.Flag}, Meta: map[string]any{"tags": tagList(c.Tags), "baseform": bf.Name, "may_be_refused": c.MayBeRefused}}
 	})
 	// generator distribution: specs in which one response component serves >=2
 	// distinct numeric statuses (across operations)
